@@ -252,7 +252,6 @@ func flows() []flow {
 			for _, want := range []string{"WantAccess", "WantRefresh", "WantID"} {
 				c := clients[cn]
 				add(flow{coq: emit.Ctor("FTokenExchange", c.coq, subj, want), name: "token_exchange", tags: []string{"client=" + cn, "subject=" + subj, "requested=" + want},
-					thorough: !((cn == "web2" && want == "WantAccess") || (cn == "web" && subj == "SubjJwtAT")),
 					prep: func(e env) func() *opfix.Resp {
 						t := e.tokensOf(clients["web2"], full) // web2 issues JWT access tokens
 						form := url.Values{"grant_type": {"urn:ietf:params:oauth:grant-type:token-exchange"}, "scope": {"openid profile"}}
@@ -302,7 +301,6 @@ func flows() []flow {
 					scope += " offline_access"
 				}
 				add(flow{coq: emit.Ctor("FDeviceToken", c.coq, b(off), b(openid)), name: "token_device", tags: []string{"client=" + cn, "offline=" + b(off), "openid=" + b(openid)},
-					thorough: !(cn == "web" || (cn == "spa" && !off && !openid) || (cn != "spa" && off && openid)),
 					prep: func(e env) func() *opfix.Resp {
 						form, basic := withAuth(c, url.Values{"scope": {scope}}, true)
 						da := e.f.Post(e.r, "/device_authorization", form, basic, "")
@@ -343,7 +341,6 @@ func flows() []flow {
 			for _, hint := range []bool{true, false} {
 				c := clients[cn]
 				add(flow{coq: emit.Ctor("FRevoke", c.coq, tok, b(hint)), name: "revoke", tags: []string{"client=" + cn, "token=" + tok, "hint=" + b(hint)},
-					thorough: !(cn == "web" || cn == "web2" || (tok == "RevAccess") != hint),
 					prep: func(e env) func() *opfix.Resp {
 						t := e.tokensOf(c, full)
 						form := url.Values{"token": {t.access}}
